@@ -31,6 +31,7 @@ type replay struct {
 	Cfg    sw.SysOpts `json:"cfg"`
 	Trace  []string   `json:"trace"`
 	Xproto *xpCase    `json:"xproto,omitempty"`
+	Xpull  *xpullCase `json:"xpull,omitempty"`
 }
 
 type sys struct {
@@ -536,6 +537,16 @@ func main() {
 	if r.ReplayIn != "" {
 		var rp replay
 		r.LoadReplay(&rp)
+		if rp.Xpull != nil {
+			vs, err := xpullRun(*rp.Xpull)
+			if err != nil {
+				r.Violation("infra/xpull", err.Error(), rp)
+			}
+			for _, v := range vs {
+				r.Violation(v.key, v.what, rp)
+			}
+			r.Finish()
+		}
 		if rp.Xproto != nil {
 			vs, _, err := xpRun(*rp.Xproto)
 			if err != nil {
@@ -599,6 +610,7 @@ func main() {
 	_ = bytes.Equal
 	if os.Getenv("C16_ONLY") == "" || os.Getenv("C16_ONLY") == "xproto" {
 		n := xpPhase(r)
+		n += xpullPhase(r)
 		r.Eval(n)
 		r.AddTraces(int64(n))
 	}
